@@ -61,6 +61,12 @@ class LxmlEventHandler(XmlHandler):
             An instance of the class type representing the parsed content.
         """
         for event, element in context:
+            if event in (EventType.START, EventType.END) and not isinstance(
+                element.tag, str
+            ):
+                # Entity references, comments and processing instructions
+                continue
+
             if event == EventType.START:
                 self.parser.start(
                     self.clazz,
